@@ -128,6 +128,7 @@ def extract(config, repo=None, target_dir=None, quiet=True):
     outdir = os.path.join(CACHE, "facts", th)
     out = os.path.join(outdir, "mmtk.%s.json" % config)
     if os.path.exists(out):
+        _touch(outdir)
         return out
     ensure_driver()
     os.makedirs(outdir, exist_ok=True)
@@ -135,6 +136,8 @@ def extract(config, repo=None, target_dir=None, quiet=True):
     with Lock("target-" + hashlib.sha1(target.encode()).hexdigest()[:10]):
         if os.path.exists(out):
             return out
+        os.makedirs(outdir, exist_ok=True)
+        _touch(outdir)
         # defeat cargo's freshness cache for the mmtk lib only
         fp = os.path.join(target, "debug", ".fingerprint")
         if os.path.isdir(fp):
@@ -167,15 +170,26 @@ def extract(config, repo=None, target_dir=None, quiet=True):
     return out
 
 
-def prune(keep=4):
+def _touch(d):
+    try:
+        os.utime(d, None)
+    except OSError:
+        pass
+
+
+def prune(keep=4, min_age=3 * 3600):
+    """Bound the cache: beyond the `keep` most recently used tree hashes, remove fact bases that nobody has used for `min_age`
+    seconds. A directory in use by a concurrent check (touched on every use) is never removed."""
     root = os.path.join(CACHE, "facts")
     try:
         ds = [(os.path.getmtime(os.path.join(root, d)), d) for d in os.listdir(root)]
-    except FileNotFoundError:
+    except (FileNotFoundError, OSError):
         return
     ds.sort(reverse=True)
-    for _, d in ds[keep:]:
-        shutil.rmtree(os.path.join(root, d), ignore_errors=True)
+    now = time.time()
+    for mt, d in ds[keep:]:
+        if now - mt > min_age:
+            shutil.rmtree(os.path.join(root, d), ignore_errors=True)
 
 
 if __name__ == "__main__":
